@@ -236,7 +236,8 @@ class Ex:
             if [src(b) for b in iff.body] != [f"{F} = False", "break"]:
                 fail(f"{self.cls}._monitor: locked guard body must clear the flag and break", iff)
             self.locked = True
-            self.mark("guard", single_line(w.items[0].context_expr, "locked guard"))
+            # scheduling point = acquisition of self._lock (the harness wraps the lock), not a line
+            self.mark("lock", single_line(w.items[0].context_expr, "locked guard"))
             lbody = lbody[1:]
             if [src(s) for s in hb] != ["with self._lock:\n    " + f"{F} = False", "self._scheduler.reject_job(None, error)"]:
                 fail(f"{self.cls}._monitor (locked): handler must clear the flag under the lock, then reject_job(None, error)", tr)
@@ -301,7 +302,7 @@ class Ex:
                 fail(f"{self.cls}.{fn.name}: locked tail must be insert; self._start()", last)
             if not self.locked:
                 fail(f"{self.cls}: submit holds the lock but the monitor guard does not", last)
-            self.mark("insert", single_line(last.items[0].context_expr, "locked submit"))
+            self.mark("lock", single_line(last.items[0].context_expr, "locked submit"))
             return
         if self.locked:
             fail(f"{self.cls}: monitor guard is locked but the submit tail is not", last)
@@ -389,6 +390,11 @@ class Ex:
             self.tr_subthread(pins)
         if self.sp["queue"] and "queue" not in self.guard_reads:
             fail(f"{self.cls}: monitor guard does not read the queue")
+        # executors that hand jobs to a JobArrayer must keep the monitor alive while the arrayer holds
+        # jobs (the model assumes arraying off, where num_pending is 0; dropping the term would lose
+        # arrayed jobs, which this check could not see)
+        if self.sp["single"] and "arrayer" not in self.guard_reads:
+            fail(f"{self.cls}: monitor guard no longer reads self.arrayer.num_pending")
         return self
 
 
